@@ -5,6 +5,7 @@
 -/
 import DnsModel.MsgUnpack
 import DnsProofs.C18
+import DnsProofs.C02
 namespace Dns.C02M
 open Dns Dns.MU Dns.C18
 
@@ -183,6 +184,358 @@ theorem unpackMsg_records_bounded (msg : Bytes) (m : MsgM) (h : unpackMsg msg = 
               obtain ⟨c1, c2, _, _, c5⟩ := unpackSection_bound _ msg _ [] ex o3 b2 he
               simp only [List.length_nil, Nat.sub_zero] at c5
               simp at h; subst h; simp; omega
+
+/-! ### names in accepted messages -/
+
+/-- a name as the decoder delivers it: the library's spelling of a label list within the 63 / 255 limits -/
+def NameOK (text : Bytes) : Prop := ∃ ls, WireNameOK ls ∧ text = presentOf ls
+
+theorem unpackName_nameOK (msg : Bytes) (off : Nat) (s : Bytes) (o : Nat) (h : unpackName msg off = .ok (s, o)) : NameOK s := by
+  obtain ⟨_, ls, hok, hs, _⟩ := C02.unpackName_sound msg off s o h
+  exact ⟨ls, hok, hs⟩
+
+/-- every name a field value holds -/
+def ValNamesOK : Val → Prop
+  | .t text => text = [] ∨ NameOK text
+  | .ns texts => ∀ t ∈ texts, NameOK t
+  | _ => True
+
+theorem unpackNamesM_ok (fuel : Nat) (m : Bytes) (off : Nat) (texts : List Bytes) (h : unpackNamesM fuel m off = some texts) :
+    ∀ t ∈ texts, NameOK t := by
+  induction fuel generalizing off texts with
+  | zero => simp [unpackNamesM] at h
+  | succ f ih =>
+    simp only [unpackNamesM] at h
+    split at h
+    · simp at h; subst h; simp
+    · split at h
+      · rename_i text off' hn
+        cases hr : unpackNamesM f m off' with
+        | none => simp [hr] at h
+        | some r =>
+          simp only [hr, Option.map_some, Option.some.injEq] at h
+          subst h
+          intro t ht
+          rcases List.mem_cons.mp ht with rfl | ht
+          · exact unpackName_nameOK m off _ off' hn
+          · exact ih off' r hr t ht
+      · simp at h
+
+theorem unpackNames_ok (fuel : Nat) (rd : Bytes) (texts : List Bytes) (h : unpackNames fuel rd = some texts) :
+    ∀ t ∈ texts, NameOK t := by
+  induction fuel generalizing rd texts with
+  | zero => simp [unpackNames] at h
+  | succ f ih =>
+    cases rd with
+    | nil => simp [unpackNames] at h; subst h; simp
+    | cons b rest =>
+      simp only [unpackNames] at h
+      split at h
+      · rename_i text off hn
+        split at h
+        · simp at h
+        · cases hr : unpackNames f ((b :: rest).drop off) with
+          | none => simp [hr] at h
+          | some r =>
+            simp only [hr, Option.map_some, Option.some.injEq] at h
+            subst h
+            intro t ht
+            rcases List.mem_cons.mp ht with rfl | ht
+            · exact unpackName_nameOK _ 0 _ off hn
+            · exact ih _ r hr t ht
+      · simp at h
+
+/-- one step of a body on an RDATA slice: whatever name it delivers is within the limits -/
+theorem unpackStep_names (vals : List Val) (s : CStep) (rd : Bytes) (v : Val) (rd' : Bytes)
+    (h : unpackStep vals s rd = some (v, rd')) : ValNamesOK v := by
+  cases s
+  case name =>
+    simp only [unpackStep] at h
+    split at h
+    · rename_i text o' hn
+      simp only [Option.some.injEq, Prod.mk.injEq] at h
+      obtain ⟨rfl, _⟩ := h
+      exact Or.inr (unpackName_nameOK _ 0 _ o' hn)
+    · cases h
+  case names =>
+    simp only [unpackStep] at h
+    cases hn : unpackNames (rd.length + 1) rd with
+    | none => rw [hn] at h; cases h
+    | some ns =>
+      rw [hn] at h
+      simp only [Option.map_some, Option.some.injEq, Prod.mk.injEq] at h
+      obtain ⟨rfl, _⟩ := h
+      exact unpackNames_ok _ _ _ hn
+  case gateway i mk =>
+    simp only [unpackStep] at h
+    split at h
+    · split at h
+      · simp only [Option.some.injEq, Prod.mk.injEq] at h; obtain ⟨rfl, _⟩ := h; trivial
+      · cases h
+    · split at h
+      · simp only [Option.some.injEq, Prod.mk.injEq] at h; obtain ⟨rfl, _⟩ := h; trivial
+      · cases h
+    · split at h
+      · rename_i text o' hn
+        simp only [Option.some.injEq, Prod.mk.injEq] at h
+        obtain ⟨rfl, _⟩ := h
+        exact Or.inr (unpackName_nameOK _ 0 _ o' hn)
+      · cases h
+    · simp only [Option.some.injEq, Prod.mk.injEq] at h; obtain ⟨rfl, _⟩ := h; trivial
+  case uint w =>
+    simp only [unpackStep] at h
+    split at h
+    · simp only [Option.some.injEq, Prod.mk.injEq] at h; obtain ⟨rfl, _⟩ := h; trivial
+    · cases h
+  case a =>
+    simp only [unpackStep] at h
+    split at h
+    · simp only [Option.some.injEq, Prod.mk.injEq] at h; obtain ⟨rfl, _⟩ := h; trivial
+    · cases h
+  case aaaa =>
+    simp only [unpackStep] at h
+    split at h
+    · simp only [Option.some.injEq, Prod.mk.injEq] at h; obtain ⟨rfl, _⟩ := h; trivial
+    · cases h
+  case str =>
+    cases rd with
+    | nil => simp [unpackStep] at h
+    | cons l rest =>
+      simp only [unpackStep] at h
+      split at h
+      · simp only [Option.some.injEq, Prod.mk.injEq] at h; obtain ⟨rfl, _⟩ := h; trivial
+      · cases h
+  case blobRest =>
+    simp only [unpackStep, Option.some.injEq, Prod.mk.injEq] at h; obtain ⟨rfl, _⟩ := h; trivial
+  case blobSized i =>
+    simp only [unpackStep] at h
+    split at h
+    · split at h
+      · simp only [Option.some.injEq, Prod.mk.injEq] at h; obtain ⟨rfl, _⟩ := h; trivial
+      · cases h
+    · cases h
+  case txt =>
+    simp only [unpackStep] at h
+    cases hx : unpackTxtStrings (rd.length + 1) rd with
+    | none => rw [hx] at h; cases h
+    | some x => rw [hx] at h; simp only [Option.map_some, Option.some.injEq, Prod.mk.injEq] at h; obtain ⟨rfl, _⟩ := h; trivial
+  case nsec =>
+    simp only [unpackStep] at h
+    cases hx : unpackNsec rd with
+    | none => rw [hx] at h; cases h
+    | some x => rw [hx] at h; simp only [Option.map_some, Option.some.injEq, Prod.mk.injEq] at h; obtain ⟨rfl, _⟩ := h; trivial
+  case tlvs sorted =>
+    simp only [unpackStep] at h
+    cases hx : unpackTlvs sorted (rd.length + 1) none rd with
+    | none => rw [hx] at h; cases h
+    | some x => rw [hx] at h; simp only [Option.map_some, Option.some.injEq, Prod.mk.injEq] at h; obtain ⟨rfl, _⟩ := h; trivial
+  case apl =>
+    simp only [unpackStep] at h
+    cases hx : unpackApl (rd.length + 1) rd with
+    | none => rw [hx] at h; cases h
+    | some x => rw [hx] at h; simp only [Option.map_some, Option.some.injEq, Prod.mk.injEq] at h; obtain ⟨rfl, _⟩ := h; trivial
+  case early => simp [unpackStep] at h
+  case other => simp [unpackStep] at h
+
+/-- the same inside a message -/
+theorem unpackStepM_names (vals : List Val) (s : CStep) (m : Bytes) (off : Nat) (v : Val) (o : Nat)
+    (h : unpackStepM vals s m off = some (v, o)) : ValNamesOK v := by
+  have slice : (unpackStep vals s (m.drop off)).map (fun p => (p.1, m.length - p.2.length)) = some (v, o) → ValNamesOK v := by
+    intro hx
+    cases hu : unpackStep vals s (m.drop off) with
+    | none => rw [hu] at hx; cases hx
+    | some p =>
+      obtain ⟨v0, rd'⟩ := p
+      rw [hu] at hx
+      simp only [Option.map_some, Option.some.injEq, Prod.mk.injEq] at hx
+      obtain ⟨rfl, _⟩ := hx
+      exact unpackStep_names vals s _ _ _ hu
+  cases s
+  case name =>
+    simp only [unpackStepM] at h
+    split at h
+    · rename_i text o' hn
+      simp only [Option.some.injEq, Prod.mk.injEq] at h
+      obtain ⟨rfl, _⟩ := h
+      exact Or.inr (unpackName_nameOK m off _ o' hn)
+    · cases h
+  case names =>
+    simp only [unpackStepM] at h
+    cases hn : unpackNamesM (m.length + 1) m off with
+    | none => rw [hn] at h; cases h
+    | some ns =>
+      rw [hn] at h
+      simp only [Option.map_some, Option.some.injEq, Prod.mk.injEq] at h
+      obtain ⟨rfl, _⟩ := h
+      exact unpackNamesM_ok _ _ _ _ hn
+  case gateway i mk =>
+    simp only [unpackStepM] at h
+    split at h
+    · split at h
+      · rename_i text o' hn
+        simp only [Option.some.injEq, Prod.mk.injEq] at h
+        obtain ⟨rfl, _⟩ := h
+        exact Or.inr (unpackName_nameOK m off _ o' hn)
+      · cases h
+    · exact slice h
+  all_goals exact slice h
+
+/-- whole bodies -/
+theorem unpackPlanM_names (U : List CStep) (m : Bytes) (off : Nat) (acc vals : List Val) (o : Nat)
+    (hacc : ∀ v ∈ acc, ValNamesOK v) (h : unpackPlanM U m off acc = some (vals, o)) : ∀ v ∈ vals, ValNamesOK v := by
+  induction U generalizing off acc with
+  | nil => simp [unpackPlanM] at h; obtain ⟨rfl, _⟩ := h; exact hacc
+  | cons s U ih =>
+    by_cases hse : s = .early
+    · subst hse
+      simp only [unpackPlanM] at h
+      split at h
+      · simp only [Option.some.injEq, Prod.mk.injEq] at h
+        obtain ⟨rfl, _⟩ := h
+        intro v hv
+        rcases List.mem_append.mp hv with hv | hv
+        · exact hacc v hv
+        · obtain ⟨s0, _, hz⟩ := List.mem_filterMap.mp hv
+          cases s0 <;> simp [zeroVal] at hz <;> (subst hz; first | trivial | exact Or.inl rfl | (intro t ht; cases ht))
+      · exact ih off acc hacc h
+    · have hstep : unpackPlanM (s :: U) m off acc =
+          (match unpackStepM acc s m off with
+           | some (v, off') => unpackPlanM U m off' (acc ++ [v])
+           | none => none) := by
+        cases s <;> first | exact absurd rfl hse | rfl
+      rw [hstep] at h
+      cases hu : unpackStepM acc s m off with
+      | none => rw [hu] at h; cases h
+      | some p =>
+        obtain ⟨v, off'⟩ := p
+        rw [hu] at h
+        simp only at h
+        exact ih off' (acc ++ [v]) (by
+          intro x hx
+          rcases List.mem_append.mp hx with hx | hx
+          · exact hacc x hx
+          · simp at hx; subst hx; exact unpackStepM_names acc s m off _ off' hu) h
+
+/-- **records**: the owner and every name inside the RDATA of a record the decoder accepts are names within the
+    63 / 255 limits in the library's spelling (the owner of the discarded empty header aside) -/
+theorem unpackRR_names (msg : Bytes) (off : Nat) (r : RRm) (o : Nat) (h : unpackRR msg off = some (r, o)) :
+    (r.name = [] ∨ NameOK r.name) ∧ ∀ vals, r.body = some vals → ∀ v ∈ vals, ValNamesOK v := by
+  unfold unpackRR at h
+  split at h
+  · simp only [Option.some.injEq, Prod.mk.injEq] at h
+    obtain ⟨rfl, _⟩ := h
+    exact ⟨Or.inl rfl, by intro vals hv; cases hv⟩
+  · split at h
+    · rename_i name o1 hn
+      have hname := unpackName_nameOK msg off name o1 hn
+      split at h
+      · cases h
+      · split at h
+        · cases h
+        · split at h
+          · cases h
+          · split at h
+            · cases h
+            · split at h
+              · cases h
+              · simp only at h
+                split at h
+                · simp only [Option.some.injEq, Prod.mk.injEq] at h
+                  obtain ⟨rfl, _⟩ := h
+                  exact ⟨Or.inr hname, by intro vals hv; cases hv⟩
+                · split at h
+                  · cases h
+                  · split at h
+                    · rename_i plan hpl vals off' hb
+                      split at h
+                      · simp only [Option.some.injEq, Prod.mk.injEq] at h
+                        obtain ⟨rfl, _⟩ := h
+                        refine ⟨Or.inr hname, ?_⟩
+                        intro vs hvs
+                        simp only [Option.some.injEq] at hvs
+                        subst hvs
+                        exact unpackPlanM_names _ _ _ [] _ _ (by simp) hb
+                      · cases h
+                    · cases h
+    · cases h
+
+def RRNamesOK (r : RRm) : Prop := (r.name = [] ∨ NameOK r.name) ∧ ∀ vals, r.body = some vals → ∀ v ∈ vals, ValNamesOK v
+
+theorem unpackSection_names (c : Nat) (msg : Bytes) (off : Nat) (acc rs : List RRm) (o : Nat)
+    (hacc : ∀ r ∈ acc, RRNamesOK r) (h : unpackSection c msg off acc = some (rs, o)) : ∀ r ∈ rs, RRNamesOK r := by
+  induction c generalizing off acc with
+  | zero => simp [unpackSection] at h; obtain ⟨rfl, _⟩ := h; simpa using hacc
+  | succ c ih =>
+    simp only [unpackSection] at h
+    split at h
+    · cases h
+    · rename_i r off' hr
+      split at h
+      · simp only [Option.some.injEq, Prod.mk.injEq] at h; obtain ⟨rfl, _⟩ := h; simpa using hacc
+      · exact ih off' (r :: acc) (by
+          intro x hx
+          rcases List.mem_cons.mp hx with rfl | hx
+          · exact unpackRR_names msg off _ off' hr
+          · exact hacc x hx) h
+
+theorem unpackQuestions_names (c : Nat) (msg : Bytes) (off : Nat) (acc : List Qm) (hacc : ∀ q ∈ acc, NameOK q.name) :
+    ∀ q ∈ (unpackQuestions c msg off acc).1, NameOK q.name := by
+  induction c generalizing off acc with
+  | zero => simpa [unpackQuestions] using hacc
+  | succ c ih =>
+    simp only [unpackQuestions]
+    split
+    · simpa using hacc
+    · rename_i q off' hq
+      split
+      · simpa using hacc
+      · apply ih
+        intro x hx
+        rcases List.mem_cons.mp hx with rfl | hx
+        · unfold unpackQuestion at hq
+          split at hq
+          · rename_i name o1 hn
+            have := unpackName_nameOK msg off name o1 hn
+            split at hq
+            · simp only [Option.some.injEq, Prod.mk.injEq] at hq; obtain ⟨rfl, _⟩ := hq; exact this
+            · split at hq
+              · cases hq
+              · split at hq
+                · simp only [Option.some.injEq, Prod.mk.injEq] at hq; obtain ⟨rfl, _⟩ := hq; exact this
+                · split at hq
+                  · cases hq
+                  · simp only [Option.some.injEq, Prod.mk.injEq] at hq; obtain ⟨rfl, _⟩ := hq; exact this
+          · cases hq
+        · exact hacc x hx
+
+/-- **accepted messages hold only names within the limits**: every question name, every owner and every domain name
+    inside the RDATA of every record of whatever `Msg.Unpack` (the model) returns — also the partial result after an
+    error — is the library's spelling of a label list within the 63 / 255 octet limits -/
+theorem unpackMsg_names (msg : Bytes) (m : MsgM) (h : unpackMsg msg = some m) :
+    (∀ q ∈ m.question, NameOK q.name) ∧ (∀ r ∈ m.answer, RRNamesOK r) ∧ (∀ r ∈ m.ns, RRNamesOK r) ∧
+      (∀ r ∈ m.extra, RRNamesOK r) := by
+  unfold unpackMsg at h
+  split at h
+  · cases h
+  · simp only at h
+    have hq := unpackQuestions_names (beVal ((msg.drop (2 * 2)).take 2)) msg 12 [] (by simp)
+    split at h
+    · simp at h; subst h; simp
+    · split at h
+      · simp at h; subst h; exact ⟨hq, by simp, by simp, by simp⟩
+      · split at h
+        · simp at h; subst h; exact ⟨hq, by simp, by simp, by simp⟩
+        · rename_i an o1 ha
+          have han := unpackSection_names _ msg _ [] an o1 (by simp) ha
+          split at h
+          · simp at h; subst h; exact ⟨hq, han, by simp, by simp⟩
+          · rename_i ns o2 hn
+            have hns := unpackSection_names _ msg _ [] ns o2 (by simp) hn
+            split at h
+            · simp at h; subst h; exact ⟨hq, han, hns, by simp⟩
+            · rename_i ex o3 he
+              have hex := unpackSection_names _ msg _ [] ex o3 (by simp) he
+              simp at h; subst h; exact ⟨hq, han, hns, hex⟩
 
 /-- the premise is satisfiable (a bare header whose counts claim 65535 records each); on longer inputs the compiled
     model is run against `Msg.Unpack` by the `msg.unpack` correspondence (the name decoder is defined by well-founded
